@@ -79,6 +79,7 @@ type c20Case struct {
 	extraTop string // extra top-level declarations in wire.go
 	body     string // full injector body override
 	imports  string
+	files    map[string]string // further files of the case (other packages)
 	twice    int // 1: a second injector with the same body; 2: both injectors use one named set holding the arguments
 }
 
@@ -130,7 +131,11 @@ func c20Render(cs c20Case) map[string]string {
 		defs = strings.Replace(defs, "\tUninitSet WIREQ.ProviderSet\n", "", 1)
 		defs = strings.Replace(defs, "var A2, B2 = TwoSets()\n", "", 1)
 	}
-	return map[string]string{"defs.go": sub(defs), "wire.go": sub(w)}
+	out := map[string]string{"defs.go": sub(defs), "wire.go": sub(w)}
+	for p, cnt := range cs.files {
+		out[p] = cnt
+	}
+	return out
 }
 
 var rePositioned = regexp.MustCompile(`(?m)^[^\s:]+\.go:\d+:\d+: `)
@@ -200,6 +205,26 @@ func c20Cases() []c20Case {
 			}
 			add(fmt.Sprintf("fieldsof/%s/%s", sf.name, nm.name), c20Case{result: "int", build: "Q.FieldsOf(" + args + "), NewS, NewStr"})
 		}
+	}
+	// 3b. field-name lists longer than the struct (repeated names), in wire.Struct and wire.FieldsOf
+	for _, nl := range []struct{ name, list string }{
+		{"a-b-a", `"A", "B", "A"`}, {"a-a", `"A", "A"`}, {"a-b-b-a", `"A", "B", "B", "A"`}, {"b-b-b", `"B", "B", "B"`}, {"star-a-b-a", `"*", "A", "B", "A"`},
+	} {
+		add("struct/repeated-names/"+nl.name, c20Case{build: "Q.Struct(new(S), " + nl.list + "), NewInt, NewStr"})
+		add("fieldsof/repeated-names/"+nl.name, c20Case{result: "int", build: "Q.FieldsOf(new(S), " + nl.list + "), NewS, NewStr"})
+	}
+	// 3c. objects of a package that does not import wire, written where a provider or a set is expected
+	plain := map[string]string{"plain/plain.go": "package plain\n\nvar Default = load()\n\nvar FnVar = load\n\nconst Limit = 10\n\ntype T struct{ N int }\n\nvar Ptr = &T{}\n\nfunc load() int { return 3 }\n\nfunc New() T { return T{} }\n"}
+	for _, pv := range []struct{ name, expr string }{
+		{"var", "plain.Default"}, {"func-var", "plain.FnVar"}, {"const", "plain.Limit"}, {"ptr-var", "plain.Ptr"}, {"type", "plain.T{}"}, {"func", "plain.New"}, {"stdlib-var", "os.Stdout"},
+	} {
+		cs := c20Case{build: pv.expr + ", " + rest, imports: "\"{{ROOT}}/plain\"", files: plain}
+		if pv.name == "stdlib-var" {
+			cs.imports, cs.files = "\"os\"", nil
+		}
+		add("foreign-object/"+pv.name, cs)
+		cs.build = "Q.NewSet(" + pv.expr + "), " + rest
+		add("foreign-object-in-newset/"+pv.name, cs)
 	}
 	// 4. wire.Bind
 	bindA := []struct{ name, expr string }{{"new", "new(I)"}, {"nilconv", "(*I)(nil)"}, {"addr-var", "&IfaceVar"}, {"nil", "nil"}, {"new-nonface", "new(S)"}, {"value", "IfaceVar"}, {"new-any", "new(interface{})"}}
